@@ -3,6 +3,8 @@ package c05
 import (
 	"testing"
 
+	"pgregory.net/rapid"
+
 	"verif/internal/h"
 )
 
@@ -12,4 +14,63 @@ func TestMain(m *testing.M) { h.Main(m) }
 // count, GOMAXPROCS) vs replica C (catches up later) on a generated block sequence.
 func TestHistories(t *testing.T) {
 	h.Check(t, h.Spec[Case]{Prop: "C05", Leg: "histories", Gen: genCase, Run: func(c Case, x *h.Ctx) { runCase(c, x) }})
+}
+
+// legRule lets a leg apply its own non-triviality rule to the shared runner.
+type legRule struct {
+	*h.Ctx
+	labels map[string]bool
+}
+
+func (l *legRule) Label(s string)          { l.labels[s] = true; l.Ctx.Label(s) }
+func (l *legRule) NonTrivial(fp ...string) {}
+
+// genScheduleCase: a long chain made of the same few blocks, dominated by transactions the
+// parallel verifier must reject (broken signatures, undecodable bytes) between valid ones;
+// two replicas with different worker counts / GOMAXPROCS. Every block execution is one more
+// sample of the verifier's goroutine schedule.
+func genScheduleCase(t *rapid.T) Case {
+	c := Case{SkipC: true}
+	nb := rapid.IntRange(1, 2).Draw(t, "blocks")
+	for i := 0; i < nb; i++ {
+		n := rapid.IntRange(4, 12).Draw(t, "ntx")
+		var blk []TxSpec
+		for j := 0; j < n; j++ {
+			var s TxSpec
+			switch d := rapid.IntRange(0, 19).Draw(t, "class"); {
+			case d >= 8:
+				s = TxSpec{K: "badsig", From: rapid.IntRange(0, nAcct-1).Draw(t, "from"), A: rapid.IntRange(0, 4).Draw(t, "variant")}
+			case d >= 5:
+				s = TxSpec{K: "garbage", D: rapid.SliceOfN(rapid.Byte(), 1, 12).Draw(t, "bytes")}
+			default:
+				s = genTx(t)
+			}
+			blk = append(blk, s)
+		}
+		c.Blocks = append(c.Blocks, blk)
+	}
+	c.Repeat = rapid.IntRange(10, 60).Draw(t, "repeat")
+	n := nb * c.Repeat
+	c.B.RestartAfter = []int{}
+	if rapid.IntRange(0, 2).Draw(t, "restart") == 2 {
+		c.B.RestartAfter = append(c.B.RestartAfter, rapid.IntRange(1, n-1).Draw(t, "at"))
+	}
+	c.WorkersA = rapid.SampledFrom([]int{2, 8, 16}).Draw(t, "workersA")
+	c.B.Workers = rapid.SampledFrom([]int{2, 8, 16}).Draw(t, "workersB")
+	c.B.Procs = rapid.SampledFrom([]int{0, 1, 2, 16}).Draw(t, "procsB")
+	c.WorkersC = 8
+	return c
+}
+
+// TestSchedule: many block executions per case (two replicas, long chain of reject-heavy
+// blocks): samples goroutine schedules of the parallel verifier without the race detector.
+func TestSchedule(t *testing.T) {
+	h.Check(t, h.Spec[Case]{Prop: "C05", Leg: "schedule", Gen: genScheduleCase, Run: func(c Case, x *h.Ctx) {
+		l := &legRule{Ctx: x, labels: map[string]bool{}}
+		runCase(c, l)
+		n := len(c.Blocks) * c.Repeat
+		if !x.Failed() && n >= 10 && l.labels["sig-failures>0"] && c.WorkersA >= 2 && c.B.Workers >= 2 {
+			x.NonTrivial()
+		}
+	}})
 }
